@@ -277,6 +277,43 @@ def h_categorical_edit(ctx, kind, choice, new_choice):
     V.observe_system(ctx, A, "A.")
 
 
+def h_idle_service(ctx, kind, choice):
+    """a service installed on a server but not (or no longer) called by any job still reserves its base consumption: the
+    model equals the plain model whose server base RAM/compute include the service's"""
+    from efootprint.builders.services.video_streaming import VideoStreaming
+    from efootprint.builders.services.generative_ai_ecologits import GenAIModel
+    sym = {f"up.starts[{i}]": dict(lo=0, hi=1000, nice=(1, 40)) for i in range(2)}
+    sym.update({"svc.base_ram_consumption": dict(lo=0, hi=64, nice=(1, 8)), "pjob.ram_needed": dict(lo=0, hi=10 ** 5, nice=(100, 5000))})
+    env = M.Env(ctx, symbolic=sym)
+    skind = "gpu" if kind == "genai" else "cpu"
+    srvA, stA = make_server(env, skind)
+    if kind == "video":
+        svc = VideoStreaming("svc", srvA, sv(env, "svc.base_ram_consumption", 2, "GB"), sv(env, "svc.bits_per_pixel", 0.125, "dimensionless"),
+                             sv(env, "svc.static_delivery_cpu_cost", 4, "cpu_core/(GB/s)"), sv(env, "svc.ram_buffer_per_user", 50, "MB"))
+    else:
+        svc = GenAIModel("svc", SourceObject(choice[0]), SourceObject(choice[1]), srvA, sv(env, "svc.nb_of_bits_per_parameter", 16, "dimensionless"),
+                         sv(env, "svc.llm_memory_factor", 1.25, "dimensionless"), sv(env, "svc.gpu_latency_alpha", 8.02e-13, "s"),
+                         sv(env, "svc.gpu_latency_beta", 0.0223, "s"), sv(env, "svc.bits_per_token", 24, "dimensionless"))
+
+    def pjob(server):
+        if skind == "cpu":
+            return Job("pjob", server=server, **{p: sv(env, f"pjob.{p}", d, un) for p, d, un in M.PARAMS["job"]})
+        from types import SimpleNamespace
+        ref = SimpleNamespace(**{p: SourceValue(env.get(f"pjob.{p}", d) * u(un if p != "compute_needed" else "gpu"))
+                                 for p, d, un in M.PARAMS["job"]})
+        return _plain_gpu_job(ref, server)
+    A = dict(srv=srvA, st=stA, svc=svc, **usage_side(env, [pjob(srvA)]))
+    A["system"] = System("system", [A["up"]])
+    extra_ram = svc.base_ram_consumption.value if not isinstance(svc.base_ram_consumption, EmptyExplainableObject) else None
+    extra_cpu = svc.base_compute_consumption.value if not isinstance(svc.base_compute_consumption, EmptyExplainableObject) else None
+    srvB, stB = make_server(env, skind, extra_ram=extra_ram, extra_compute=extra_cpu)
+    B = dict(srv=srvB, st=stB, **usage_side(env, [pjob(srvB)]))
+    B["system"] = System("system", [B["up"]])
+    V.observe_system(ctx, A, "A.")
+    V.observe_system(ctx, B, "B.")
+    V.compare_systems(ctx, A, B, "installed but idle service = plain server carrying its base consumption", names={"srv", "st", "net", "up", "system"})
+
+
 def h_cloud(ctx, provider, instance_type, edit_instance=None):
     from efootprint.builders.hardware.boavizta_cloud_server import BoaviztaCloudServer
     env = M.Env(ctx, symbolic={f"up.starts[{i}]": dict(lo=0, hi=1000, nice=(1, 40)) for i in range(2)} |
@@ -340,7 +377,7 @@ def h_cloud(ctx, provider, instance_type, edit_instance=None):
                           names={"srv", "st", "net", "up", "system"}, skip={"srv.api_call_response"})
 
 
-HARNESSES = {"service": h_service, "categorical_edit": h_categorical_edit, "cloud": h_cloud}
+HARNESSES = {"service": h_service, "categorical_edit": h_categorical_edit, "cloud": h_cloud, "idle_service": h_idle_service}
 
 
 def plan(tier, seed):
@@ -387,4 +424,6 @@ def plan(tier, seed):
         p.append(("cloud", dict(provider=prov, instance_type=it)))
     p.append(("cloud", dict(provider="scaleway", instance_type="ent1-s", edit_instance="ent1-m")))
     p.append(("cloud", dict(provider="scaleway", instance_type="dev1-s", edit_instance="ent1-l")))
+    p.append(("idle_service", dict(kind="video", choice=None)))
+    p.append(("idle_service", dict(kind="genai", choice=["mistralai", "open-mistral-7b"])))
     return p
